@@ -157,7 +157,6 @@ def _setattr_value(f, field):
     return None, None
 
 
-@shape_rule
 def r3_derived(ctx):
     prog = ctx.prog
     pp = prog.find_class("PreferenceProfile")
@@ -173,13 +172,16 @@ def r3_derived(ctx):
     # total weight
     m, node, val = by_field.get("total_ballot_wt", [(None, None, None)])[0]
     good = False
-    if m is not None and isinstance(val, ast.Name):
-        init = [dv for st, dv in astx.defs_of(m.node, val.id) if dv is not None]
-        augs = [n for n in astx.walk_own(m.node) if isinstance(n, ast.AugAssign) and astx.is_name(n.target, val.id)]
-        if len(init) == 1 and len(augs) == 1:
-            lp = astx.enclosing(augs[0], astx.parents(m.node), ast.For)
-            good = astx.u(init[0]) in ("Fraction(0)", "Fraction(0, 1)") and isinstance(augs[0].op, ast.Add) and lp is not None and astx.u(lp.iter) == "self.ballots" \
-                and astx.u(augs[0].value) == f"{astx.u(lp.target)}.weight" and len([x for x in astx.walk_own(lp) if isinstance(x, (ast.If, ast.Break, ast.Continue))]) == 0
+    if m is not None and val is not None:
+        from vk import listform
+        sm = listform.sum_of(m.node, val)
+        start_ok = True
+        if sm is not None and isinstance(sm.node, ast.Call) and len(sm.node.args) == 1:
+            start_ok = False  # sum(...) without a Fraction start value is the int 0 for an empty profile
+        if sm is not None and isinstance(sm.node, ast.AugAssign):
+            init = [dv for st_, dv in astx.defs_of(m.node, val.id) if dv is not None] if isinstance(val, ast.Name) else []
+            start_ok = len(init) == 1 and astx.u(init[0]) in ("Fraction(0)", "Fraction(0, 1)")
+        good = sm is not None and not sm.conditional and start_ok and astx.u(sm.iter) == "self.ballots" and astx.u(sm.elt) == f"{sm.var}.weight"
     ctx.check(good, m, node, "total_ballot_wt = sum of weights from Fraction(0), every ballot", "", "total_ballot_wt is not the exact sum of all ballot weights")
     # candidates_cast
     items = by_field.get("candidates_cast", [])
@@ -314,7 +316,6 @@ def r5_eq_hash(ctx):
               "non-Ballot operands compare unequal", "", "type check of __eq__ changed")
 
 
-@shape_rule
 def r6_condense_add(ctx):
     prog = ctx.prog
     f = prog.find_func("PreferenceProfile.condense_ballots")
@@ -328,19 +329,21 @@ def r6_condense_add(ctx):
     pm = astx.parents(f.node)
     # key = (ranking, scores) content with weight 0
     key_defs = []
-    for node in astx.walk_own(f.node):
-        if isinstance(node, ast.AugAssign) and isinstance(node.target, ast.Subscript) and isinstance(node.target.slice, ast.Name):
-            key_defs = [dv for st, dv in astx.defs_of(f.node, node.target.slice.id)]
-            lp = astx.enclosing(node, pm, ast.For)
-            ctx.check(lp is not None and astx.u(lp.iter) == "self.ballots" and not [x for x in lp.body if isinstance(x, (ast.Break, ast.Continue))] and pm.get(node) is lp, f, node,
-                      "every ballot's weight is added to its key, unconditionally", "", "the accumulation is conditional or does not cover all ballots")
+    from vk import accum
+    accs = [a for a in accum.accumulations(f.node) if isinstance(a.key, ast.Name)]
+    for a in accs:
+        key_defs = [dv for st, dv in astx.defs_of(f.node, a.key.id)]
+        lp = astx.enclosing(a.node, pm, ast.For)
+        ctx.check(lp is not None and astx.u(lp.iter) == "self.ballots" and not a.conditional and not [x for x in ast.walk(lp) if isinstance(x, (ast.Break, ast.Continue))], f, a.node,
+                  "every ballot's weight is added to its key, unconditionally", "", "the accumulation is conditional or does not cover all ballots")
     good = False
-    acc = [n for n in astx.walk_own(f.node) if isinstance(n, ast.AugAssign) and isinstance(n.target, ast.Subscript) and isinstance(n.target.slice, ast.Name)]
+    acc = [a.node for a in accs]
     if acc:
+        keyname = accs[0].key.id
         lp = astx.enclosing(acc[0], pm, ast.For)
         b = astx.u(lp.target) if lp is not None else "?"
         Nk = Normalizer(f.node, inline=False)
-        cases = astx.value_cases(f.node, acc[0].target.slice.id, acc[0], pm)
+        cases = astx.value_cases(f.node, keyname, acc[0], pm)
 
         def kws(c):
             return {k.arg: astx.u(k.value) for k in c.keywords} if isinstance(c, ast.Call) and astx.call_name(c) == "Ballot" and not c.args else None
